@@ -244,7 +244,7 @@ def _refill_in_place(keys) -> bool:
     return done
 
 
-def _step_call(gb, step, ds, lay, class_keys=None, client=None):
+def _step_call(gb, step, ds, lay, class_keys=None, client=None, reuse_facades=False, raw_keys=None):
     """Execute one step on `gb`; returns the value (or raises).  `client` caches the
     client's own objects: a real caller passes the *same* mask / value objects to
     several calls, and anything memoised on their identity must survive that."""
@@ -300,7 +300,12 @@ def _step_call(gb, step, ds, lay, class_keys=None, client=None):
             values = np.concatenate([a, a[:1]]) if n else a
         elif fk == "bad_mask_len":
             mask = np.ones(n + 1, dtype=bool)
-    return ops.call_op(gb, op, values, mask, dso, class_form_keys=class_keys)
+    # the client keeps its facade objects (gb = df.groupby_fast(...)) and reuses them on the
+    # reused GroupBy; the fresh model gets a fresh facade
+    wrappers = client.setdefault("facades", []) if reuse_facades else None
+    if raw_keys is None and class_keys is None and op["op"] in ("crosstab", "value_counts"):
+        raw_keys = gen.build_keys(ds, lay)  # module-level functions take the keys themselves
+    return ops.call_op(gb, op, values, mask, dso, class_form_keys=class_keys, wrappers=wrappers, wrapper_tag=(vver, op.get("index_name")), raw_keys=raw_keys)
 
 
 def run_one(scen: Choices, sched: Choices, cls, cfg):
@@ -512,11 +517,17 @@ def execute(sc, sched: Choices, cls, cfg):
                 break
             continue
         op = step["op"]
+        if kind == "class_form" and "via" in op:
+            # the class form has no facade: both sides call GroupBy.op(keys, ...) directly
+            op = {k_: v_ for k_, v_ in op.items() if k_ != "via"}
+            step = dict(step, op=op)
         opname = op["op"] + ("_transform" if op.get("transform") else "")
         if kind == "failing_call":
             probes.add("failing_call")
         if kind == "class_form":
             probes.add("class_form")
+        elif op.get("via") == "api":
+            probes.add("via_facade")
         mask = ops.op_mask(op)
         # (with the second content of the value buffers the selected rows hold other values:
         #  bound over all rows then -- looser, still far below one data quantum)
@@ -533,7 +544,7 @@ def execute(sc, sched: Choices, cls, cfg):
                 elif step.get("refill_keys_first") and _refill_in_place(client[ck]):
                     probes.add("client_refilled_key_buffer")
                 class_keys = client[ck]
-                model = _outcome(lambda: _step_call(GroupBy(class_keys), dict(step, kind="op"), ds, lay, client=client))
+                model = _outcome(lambda: _step_call(GroupBy(class_keys), dict(step, kind="op"), ds, lay, client=client, raw_keys=class_keys))
             else:
                 model = _outcome(lambda: _step_call(construct(), step, ds, lay, client=client))
         account(ctxm)
@@ -545,7 +556,7 @@ def execute(sc, sched: Choices, cls, cfg):
             if kind == "class_form":
                 got = _outcome(lambda: _step_call(None, step, ds, lay, class_keys=class_keys, client=client))
             else:
-                got = _outcome(lambda: _step_call(reused, step, ds, lay, client=client))
+                got = _outcome(lambda: _step_call(reused, step, ds, lay, client=client, reuse_facades=True))
         account(ctxr)
         fired = ctxr.fault_fired
         if fired:
